@@ -29,6 +29,10 @@ fn wait_done(ack: &Arc<tinylfu_cached::cache::command::acknowledgement::CommandA
 pub fn run(seed: u64, out: &str, millis: u64) -> bool {
     let mut sink = Sink::new(out);
     let mut all_ok = true;
+    let limit = millis * 10 / 1000 + 45;
+    let why = format!("the free-running stress did not finish within {} s: a thread (or shutdown()) is blocked for ever", limit);
+    crate::start_deadline(out.to_string(), limit, vec!["# case stress deadline".to_string(), "S monitors".to_string()],
+        vec!["# case stress deadline".to_string(), format!("R violations C18/hang {} ;; C13/hang {}", why, why)]);
     for (round, (shards, cmdcap, max, buffer_size, pool_size)) in [(2usize, 1usize, 6i64, 1usize, 1usize), (2, 4, 1000, 3, 1), (4, 64, 8, 2, 2), (2, 4, 1000, 1, 3)].iter().enumerate() {
         let clock = ManualClock(Arc::new(AtomicU64::new(1_000_000_000_000)));
         let config = ConfigBuilder::new(16, 16, *max)
@@ -166,8 +170,127 @@ pub fn run(seed: u64, out: &str, millis: u64) -> bool {
         writeln!(sink.input, "S monitors").unwrap();
         writeln!(sink.implementation, "R {}", if distinct.is_empty() { "clean".to_string() } else { format!("violations {}", distinct.join(" ;; ")) }).unwrap();
         if !distinct.is_empty() { all_ok = false; }
+        sink.flush();
         cache.shutdown();
     }
+    if !hammer(&mut sink, millis) { all_ok = false; }
     sink.flush();
     all_ok
+}
+
+/// Eight threads issue un-awaited writes of fresh keys (plain and with a time-to-live), deletes and reads as fast as they
+/// can on a cache that never comes under pressure. Nothing can be asserted while they run, but once every
+/// acknowledgement has completed the cache is at rest and the identities of C05 / C16 / C15 / C11 / C03 / C10 must hold
+/// EXACTLY. What single-stepping cannot show — a read-modify-write that is no longer atomic (ids, counters, the total) —
+/// shows up here as an identity that is off by the number of lost updates.
+fn hammer(sink: &mut Sink, millis: u64) -> bool {
+    let clock = ManualClock(Arc::new(AtomicU64::new(1_000_000_000_000)));
+    let config = ConfigBuilder::new(16, 1024, 1_000_000_000_000)
+        .clock(Box::new(clock.clone()))
+        .access_pool_size(2).access_buffer_size(4).command_buffer_size(32 * 1024).shards(4)
+        .ttl_tick_duration(Duration::from_millis(1)).build();
+    let cache = Arc::new(CacheD::<u64, u64>::new(config));
+    let stop = Arc::new(AtomicBool::new(false));
+    type Ack = Arc<tinylfu_cached::cache::command::acknowledgement::CommandAcknowledgement>;
+    struct Record { key: u64, ttl: bool, put: Ack, delete: Option<Ack> }
+    let mut threads = Vec::new();
+    for t in 0..8u64 {
+        let (cache, stop) = (cache.clone(), stop.clone());
+        threads.push(std::thread::spawn(move || {
+            let mut records: Vec<Record> = Vec::new();
+            let mut lookups = 0u64;
+            let base = (t + 1) * 100_000_000;
+            for i in 0..20_000u64 {
+                if stop.load(Ordering::Relaxed) { break; }
+                let key = base + i;
+                let ttl = i % 4 == 0;
+                let put = if ttl { cache.put_with_weight_and_ttl(key, key, 1, Duration::from_secs(1)) } else { cache.put_with_weight(key, key, 1) };
+                let put = match put { Ok(ack) => ack, Err(_) => break };
+                records.push(Record { key, ttl, put, delete: None });
+                if i % 8 == 7 { lookups += 1; let _ = cache.get(&key); }
+                if i % 16 == 15 {
+                    // the key written eight calls earlier (a key without a time-to-live)
+                    let index = records.len() - 9;
+                    if let Ok(ack) = cache.delete(records[index].key) { records[index].delete = Some(ack); }
+                }
+            }
+            (records, lookups)
+        }));
+    }
+    std::thread::sleep(Duration::from_millis(millis));
+    stop.store(true, Ordering::SeqCst);
+    let mut records: Vec<Record> = Vec::new();
+    let mut lookups = 0u64;
+    for thread in threads { if let Ok((mut r, l)) = thread.join() { records.append(&mut r); lookups += l; } }
+    let mut found: Vec<String> = Vec::new();
+    let (mut accepted_puts, mut accepted_deletes, mut refused) = (0u64, 0u64, 0u64);
+    let mut expected_live: std::collections::BTreeSet<u64> = std::collections::BTreeSet::new();    // after everything expired
+    let mut expected_held: u64 = 0;                                                                   // before anything expired
+    for record in &records {
+        let put = wait_done(&record.put);
+        let delete = record.delete.as_ref().map(wait_done);
+        if put == CommandStatus::Pending || delete == Some(CommandStatus::Pending) { found.push(format!("C12/never-resolved hammer key {}", record.key)); break; }
+        match put { CommandStatus::Accepted => accepted_puts += 1, CommandStatus::Rejected(_) => refused += 1, _ => {} }
+        let deleted = delete == Some(CommandStatus::Accepted);
+        if deleted { accepted_deletes += 1; }
+        if put == CommandStatus::Accepted && delete.is_some() && !deleted {
+            found.push(format!("C11/delete-overtook-put hammer: put({}) accepted, the delete issued after it answered {:?}", record.key, delete));
+        }
+        if put == CommandStatus::Accepted && !deleted { expected_held += 1; if !record.ttl { expected_live.insert(record.key); } }
+    }
+    // ---- at rest, nothing expired yet
+    let snapshot = cache.verif_snapshot();
+    let stats = |kind: StatsType| cache.stats_summary().get(&kind).unwrap_or(0);
+    let held = snapshot.store.len() as u64;
+    let charged = snapshot.key_weights.len() as u64;
+    let distinct_ids = snapshot.store.iter().map(|entry| entry.2).collect::<std::collections::BTreeSet<_>>().len() as u64;
+    let charged_sum: i64 = snapshot.key_weights.iter().map(|entry| entry.3).sum();
+    if held != expected_held {
+        found.push(format!("C11/writes-lost-or-duplicated hammer: {} puts accepted, {} deletes accepted, but {} keys are held", accepted_puts, accepted_deletes, held));
+        found.push(format!("C03/key-lost-without-pressure hammer: {} accepted and undeleted keys expected, {} held (limit never approached)", expected_held, held));
+    }
+    if distinct_ids != held || charged != held || charged_sum != snapshot.weight_used || snapshot.weight_used != held as i64 {
+        found.push(format!("C05/hammer-accounting at rest: {} keys held with {} distinct ids, {} ids charged (sum {}), total {}", held, distinct_ids, charged, charged_sum, snapshot.weight_used));
+        found.push(format!("C03/ids-shared-between-keys hammer: {} keys held with {} distinct ids", held, distinct_ids));
+    }
+    let (hits, misses) = (stats(StatsType::CacheHits), stats(StatsType::CacheMisses));
+    let problems: Vec<String> = [
+        ("hits + misses", hits + misses, "lookups performed", lookups),
+        ("keys added", stats(StatsType::KeysAdded), "puts accepted", accepted_puts),
+        ("keys deleted", stats(StatsType::KeysDeleted), "deletes accepted", accepted_deletes),
+        ("keys rejected", stats(StatsType::KeysRejected), "puts refused by admission", refused),
+        ("weight added - weight removed", stats(StatsType::WeightAdded).wrapping_sub(stats(StatsType::WeightRemoved)), "total weight used", snapshot.weight_used as u64),
+    ].iter().filter(|(_, got, _, want)| got != want).map(|(a, got, b, want)| format!("{} = {} but {} = {}", a, got, b, want)).collect();
+    if !problems.is_empty() { found.push(format!("C16/hammer-statistics at rest: {}", problems.join("; "))); }
+    let buffered: u64 = snapshot.pool_buffers.iter().map(|buffer| buffer.len() as u64).sum();
+    let (added, dropped) = (stats(StatsType::AccessAdded), stats(StatsType::AccessDropped));
+    if hits != buffered + added + dropped {
+        found.push(format!("C15/records-not-conserved hammer: hits={} buffered={} delivered={} dropped={}", hits, buffered, added, dropped));
+    }
+    // ---- let every time-to-live elapse and every shard be swept
+    let deadline = Instant::now() + Duration::from_secs(5);
+    loop {
+        clock.0.fetch_add(1_000_000_000, Ordering::SeqCst);
+        std::thread::sleep(Duration::from_millis(15));
+        let indexed: usize = cache.verif_snapshot().ttl_shards.iter().map(|shard| shard.len()).sum();
+        if (indexed == 0 && clock.0.load(Ordering::SeqCst) > 1_000_000_000_000 + 6_000_000_000) || Instant::now() > deadline { break; }
+    }
+    let after = cache.verif_snapshot();
+    let still: std::collections::BTreeSet<u64> = after.store.iter().map(|entry| entry.0).collect();
+    let lost: Vec<&u64> = expected_live.difference(&still).take(3).collect();
+    let extra: Vec<&u64> = still.difference(&expected_live).take(3).collect();
+    if !lost.is_empty() {
+        found.push(format!("C03/key-lost-without-pressure hammer: keys without a time-to-live, accepted and never deleted, are gone after the sweeps, e.g. {:?}", lost));
+        found.push(format!("C10/sweep-removed-live-key hammer: keys without a time-to-live are gone after the sweeps, e.g. {:?}", lost));
+    }
+    if !extra.is_empty() { found.push(format!("C10/expired-key-not-removed hammer: keys whose time-to-live elapsed are still held after every shard was swept, e.g. {:?}", extra)); }
+    if after.key_weights.len() != after.store.len() || after.weight_used != after.store.len() as i64 {
+        found.push(format!("C05/hammer-accounting after the sweeps: {} keys held, {} ids charged, total {}", after.store.len(), after.key_weights.len(), after.weight_used));
+        found.push(format!("C10/weight-not-reclaimed hammer: {} keys held after the sweeps but total {}", after.store.len(), after.weight_used));
+    }
+    sink.both(&format!("# case stress hammer puts={} deletes={} lookups={} held={} live-after-expiry={}", accepted_puts, accepted_deletes, lookups, held, expected_live.len()));
+    writeln!(sink.input, "S monitors").unwrap();
+    writeln!(sink.implementation, "R {}", if found.is_empty() { "clean".to_string() } else { format!("violations {}", found.join(" ;; ")) }).unwrap();
+    cache.shutdown();
+    found.is_empty()
 }
